@@ -4,20 +4,26 @@
    initialising write), try (one non-blocking lockf), read (pread of the counter byte; the
    replay then takes the counters for its messages), write (pwrite), unlock - where each
    participant runs Cycles lock cycles and makes at most MaxFail failing lock attempts.
+   Every hold of the lock ends in one of the Modes - "ok" (the block returns), "raise" (an
+   exception leaves the block after its messages went out), "cancel" (the task is cancelled
+   there) - chosen at the read step; at most MaxExc holds of a schedule end exceptionally.
    `same` tells whether the participants use the same terminal.  Each complete schedule is
    printed once with the number of steps another participant makes inside a creation window. *)
 EXTENDS Integers, Sequences, FiniteSets, TLC, Json
 CONSTANTS Procs, Cycles, MaxFail, Same,
-          Pre            \* the lock file exists already (left by earlier participants)
-VARIABLES hist, exists, st, cyc, fails, window
-svars == <<hist, exists, st, cyc, fails, window>>
+          Pre,           \* the lock file exists already (left by earlier participants)
+          Modes, MaxExc
+VARIABLES hist, exists, st, cyc, fails, window, nexc
+svars == <<hist, exists, st, cyc, fails, window, nexc>>
 
 Busy(p) == st[p] \in {"locked", "holding", "written"}
 Blocked(p) == Same /\ \E q \in Procs \ {p} : Busy(q)
-Step(p, a) == hist' = Append(hist, [p |-> p, a |-> a])
+Step(p, a) == hist' = Append(hist, [p |-> p, a |-> a, mode |-> ""]) /\ UNCHANGED nexc
+ReadStep(p, m) == /\ hist' = Append(hist, [p |-> p, a |-> "read", mode |-> m])
+                  /\ nexc' = IF m = "ok" THEN nexc ELSE nexc + 1
 InWindow(p) == \E q \in Procs \ {p} : st[q] = "created"
 
-SInit == /\ hist = <<>> /\ exists = Pre /\ window = 0
+SInit == /\ hist = <<>> /\ exists = Pre /\ window = 0 /\ nexc = 0
          /\ st = [p \in Procs |-> "start"]
          /\ cyc = [p \in Procs |-> 0] /\ fails = [p \in Procs |-> 0]
 
@@ -33,7 +39,8 @@ SNext == \E p \in Procs :
              THEN fails[p] < MaxFail /\ fails' = [fails EXCEPT ![p] = @ + 1] /\ UNCHANGED st
              ELSE st' = [st EXCEPT ![p] = "locked"] /\ UNCHANGED fails
           /\ UNCHANGED <<exists, cyc>>
-       \/ /\ st[p] = "locked" /\ Step(p, "read")
+       \/ /\ st[p] = "locked"
+          /\ \E m \in Modes : (m # "ok" => nexc < MaxExc) /\ ReadStep(p, m)
           /\ st' = [st EXCEPT ![p] = "holding"] /\ UNCHANGED <<exists, cyc, fails>>
        \/ /\ st[p] = "holding" /\ Step(p, "write")
           /\ st' = [st EXCEPT ![p] = "written"] /\ UNCHANGED <<exists, cyc, fails>>
